@@ -96,7 +96,7 @@ def run(c):
     small = [(1, 1), (2, 1), (2, 2)]
     if c.quick:
         groups = [(small, 6), ([(3, 2)], 3)]
-        policy = {(1, 1): "all", (2, 1): "all", (2, 2): 2, (3, 2): 1}
+        policy = {(1, 1): "all", (2, 1): "all", (2, 2): 1, (3, 2): 1}
         wsizes = 2
     else:
         groups = [(small + [(3, 2)], 6), ([(4, 2)], 6)]
